@@ -130,11 +130,21 @@ pub fn alphabet(spec: &AlphaSpec, kind: K, n: usize) -> Vec<Act> {
         for l in 0..=spec.extend_bits {
             if n + l <= maxl {
                 for b in enumr::full(l) {
+                    v.push(Act::ExtendNoHint(b.clone()));
                     v.push(Act::Extend(b));
                 }
             }
         }
         v.push(Act::Rebuild(Rb::Collect));
+        v.push(Act::Rebuild(Rb::CollectNoHint));
+        // growth across the next word boundary / the inline limit from iterators with and without size hint
+        for target in [(n / w + 1) * w + 1, 129, 200] {
+            if target > n && target <= maxl && target - n <= 140 {
+                let bits = Bits((0..target - n).map(|i| i % 3 != 1).collect());
+                v.push(Act::ExtendNoHint(bits.clone()));
+                v.push(Act::Extend(bits));
+            }
+        }
     }
     if spec.shifts {
         v.push(Act::ShlIn(false));
@@ -629,6 +639,7 @@ pub fn run_c07(cfg: &Cfg) -> (Part, Value, bool) {
             vec![Act::Resize(1000, true), Act::Resize(1001, false), Act::Truncate(999), Act::Push(true)],
             vec![Act::Append(big.clone()), Act::Append(big.clone()), Act::Prepend(big.clone()), Act::Append(big.clone()), Act::Insert(301, big.clone())],
             vec![Act::Extend(ext.clone()), Act::Pop, Act::SignExtend(2500), Act::Truncate(5)],
+            vec![Act::ExtendNoHint(ext.clone()), Act::ExtendNoHint(Bits::ones(70)), Act::Rebuild(Rb::CollectNoHint)],
         ];
         for root_bits in [Bits::new(), Bits::from_u128(3, 0b101), Bits::ones(127)] {
             for sc in scripts.iter() {
